@@ -36,6 +36,12 @@ int main(int argc, char** argv)
 		ByteArray back = decodeBase64(e); if (back.length() != (int)d.size() || memcmp(back.data(), d.data(), d.size())) { printf("REPRODUCED decodeBase64(encodeBase64(x)) != x\n"); return 1; } printf("OK\n"); return 0; }
 	if (cmd == "b64len") { int n = atoi(argv[2]); std::string d(n, 0); for (int i = 0; i < n; i++) d[i] = char(i * 37 + 11); String e = encodeBase64((const byte*)d.data(), n); if (std::string(*e, e.length()) != b64ref(d)) { printf("REPRODUCED encodeBase64 for %d bytes\n", n); return 1; } printf("OK\n"); return 0; }
 	if (cmd == "unb64") { std::string t = unhex(argv[2]); ByteArray a = decodeBase64(t.c_str()); if (a.length() < 0) { printf("REPRODUCED decodeBase64 returned length %d\n", a.length()); return 1; } printf("OK %d\n", a.length()); return 0; }
+	if (cmd == "b64ws") {       // b64ws <char code>: RFC text of a fixed message with that character put between the symbols must decode to the message
+		int ch = atoi(argv[2]); std::string d = "Many hands make light work."; std::string e = b64ref(d), t;
+		for (size_t i = 0; i < e.size(); i++) { t += e[i]; if (i % 3 == 1) t += char(ch); }
+		ByteArray a = decodeBase64(t.c_str());
+		if (a.length() != (int)d.size() || memcmp(a.data(), d.data(), d.size()) != 0) { printf("REPRODUCED decodeBase64 of text interleaved with character %d: %d bytes, differs from the %d encoded\n", ch, a.length(), (int)d.size()); return 1; }
+		printf("OK\n"); return 0; }
 	if (cmd == "unhex") { std::string t = unhex(argv[2]); ByteArray a = decodeHex(String(t.c_str())); printf("OK %d\n", a.length()); return 0; }
 	if (cmd == "sha1") {        // sha1 <len>: message of that length (and the neighbours of every 64-byte boundary)
 		int len = atoi(argv[2]);
